@@ -155,6 +155,10 @@ class Family:
         lines = [f"class {d['name']}(enum.{base}):"]
         for n, v in d["members"]:
             lines.append(f"    {n} = {v!r}")
+        if d.get("missing_hook"):
+            lines += ["    @classmethod", "    def _missing_(cls, value):",
+                      "        if type(value) in (str, int) and value in ('garbage', 12, '12'):",
+                      "            return list(cls)[0]", "        return None"]
         return "\n".join(lines) + "\n"
 
     def _defval(self, cls, fname, t, seed, value_maker, const=_NOCONST):
